@@ -68,6 +68,12 @@ void run_case(long id, uint64_t sa, uint64_t sb) {
         vh_line("R0", id, out.data(), M*N);
     }
     { Tensor<T,M,N> C = tmatmul<L,R>(A,B); vh_line("R1", id, C.data(), M*N); }
+    // expression operands (the overloads of binary_matmul_op.h): the zero pattern of the operands is preserved
+    if (id % 3 == 0) {
+        { Tensor<T,M,N> C = tmatmul<L,R>(A, B + T(0) * B); vh_line("R2", id, C.data(), M*N); }
+        { Tensor<T,M,N> C = tmatmul<L,R>(A + T(0) * A, B); vh_line("R3", id, C.data(), M*N); }
+        { Tensor<T,M,N> C = tmatmul<L,R>(A + T(0) * A, B + T(0) * B); vh_line("R4", id, C.data(), M*N); }
+    }
 }
 '''
 
@@ -172,7 +178,7 @@ def main():
         for c in cases:
             cplx = TYPES[c['ty']][3]; mn = c['M'] * c['N']
             mres = model[cfg.coq_cfg()][c['id']]
-            for mode in (0, 1):
+            for mode in ((0, 1, 2, 3, 4) if c['id'] % 3 == 0 else (0, 1)):
                 toks = d['lines'].get((c['id'], mode))
                 if toks is None:
                     if not d['crash']: mism.append({'kind': 'missing', 'cfg': cfg.name, 'case': c, 'mode': mode})
@@ -205,7 +211,7 @@ def main():
     for (name, log) in compile_fail[:3]:
         rep.violation('harness does not compile under %s' % name, {'cfg': name, 'log': log}, no_input=True, key='compile:%s' % name)
     rep.cov.update({'evaluations': n_eval, 'distinct_nontrivial': len({(c['ty'], c['M'], c['K'], c['N'], c['tl'], c['tr']) for c in cases if c['M'] * c['K'] * c['N'] > 1}),
-                    'rule': 'one case = (type, M, K, N, lhs tag, rhs tag); operands are integer matrices in [1,9] that are exactly zero outside the tagged triangle; raw _tmatmul into a fenced sentinel-filled buffer and the tmatmul<L,R>() API; every case under every configuration of the tier grid; compared element by element with the Coq model under the same configuration',
+                    'rule': 'one case = (type, M, K, N, lhs tag, rhs tag); operands are integer matrices in [1,9] that are exactly zero outside the tagged triangle; raw _tmatmul into a fenced sentinel-filled buffer, the tmatmul<L,R>() API on tensors and (every third case) on (tensor, expression), (expression, tensor), (expression, expression) operands; every case under every configuration of the tier grid; compared element by element with the Coq model under the same configuration',
                     'samples': [cases[i] for i in range(0, len(cases), max(1, len(cases) // 6))][:8], 'configurations': [c.name for c in cfgs],
                     'distribution_type_tags': {'%s/%s%s' % (k[0], TAGS[k[1]][0], TAGS[k[2]][0]): v for k, v in sorted(dist.items())},
                     'extraction_crosschecked_cases': n_cross, 'traces_validated_against_impl': n_eval})
